@@ -39,6 +39,8 @@ def add_control(wn, cs):
         act = _action(wn, cs)
         flag = 'CLOCK_TIME' if cs.get('clock') else 'SIM_TIME'
         c = controls.Control._time_control(wn, cs['time'], flag, bool(cs.get('daily', cs.get('clock', False))), act)
+        if 'priority' in cs:
+            c.update_priority(controls.ControlPriority(cs['priority']))
     elif kind == 'cond':
         act = _action(wn, cs)
         src = wn.get_node(cs['source'])
